@@ -51,6 +51,26 @@ theorem gev_logsurv_weibull (hg : ¬ Num.fabs (y * a) < 1.0e-12) (h : 1.0 + a * 
   simp [esl_gev_logsurv, hg, h, hx]
 end gev
 
+/-! gamma: outside `y = λ(x-μ) ≥ 0` (repaired: `esl_gam_logpdf` now tests `y`, not `x`) -/
+theorem gam_pdf_below {x mu l t : α} (h : l * (x - mu) < 0.0) : esl_gam_pdf x mu l t = 0.0 := by simp [esl_gam_pdf, h]
+theorem gam_logpdf_below {x mu l t : α} (h : l * (x - mu) < 0.0) : esl_gam_logpdf x mu l t = -Num.inf := by simp [esl_gam_logpdf, h]
+theorem gam_cdf_below {x mu l t : α} (h : l * (x - mu) ≤ 0.0) : esl_gam_cdf x mu l t = 0.0 := by simp [esl_gam_cdf, h]
+theorem gam_logcdf_below {x mu l t : α} (h : l * (x - mu) ≤ 0.0) : esl_gam_logcdf x mu l t = -Num.inf := by simp [esl_gam_logcdf, h]
+theorem gam_surv_below {x mu l t : α} (h : l * (x - mu) ≤ 0.0) : esl_gam_surv x mu l t = 1.0 := by simp [esl_gam_surv, h]
+theorem gam_logsurv_below {x mu l t : α} (h : l * (x - mu) ≤ 0.0) : esl_gam_logsurv x mu l t = 0.0 := by simp [esl_gam_logsurv, h]
+
+/-! stretched exponential: `x < μ` for the density, `x ≤ μ` for the distribution functions -/
+theorem sxp_pdf_below {x mu l t : α} (h : x < mu) : esl_sxp_pdf x mu l t = 0.0 := by simp [esl_sxp_pdf, h]
+theorem sxp_logpdf_below {x mu l t : α} (h : x < mu) : esl_sxp_logpdf x mu l t = -Num.inf := by simp [esl_sxp_logpdf, h]
+theorem sxp_cdf_below {x mu l t : α} (h : x ≤ mu) : esl_sxp_cdf x mu l t = 0.0 := by simp [esl_sxp_cdf, h]
+theorem sxp_logcdf_below {x mu l t : α} (h : x ≤ mu) : esl_sxp_logcdf x mu l t = -Num.inf := by simp [esl_sxp_logcdf, h]
+theorem sxp_surv_below {x mu l t : α} (h : x ≤ mu) : esl_sxp_surv x mu l t = 1.0 := by simp [esl_sxp_surv, h]
+theorem sxp_logsurv_below {x mu l t : α} (h : x ≤ mu) : esl_sxp_logsurv x mu l t = 0.0 := by simp [esl_sxp_logsurv, h]
+
+/-! log-normal: density `0` at `x = 0` -/
+theorem lognormal_pdf_zero {x mu s : α} (h : Num.eqb x 0.0 = true) : esl_lognormal_pdf x mu s = 0.0 := by simp [esl_lognormal_pdf, h]
+theorem lognormal_logpdf_zero {x mu s : α} (h : Num.eqb x 0.0 = true) : esl_lognormal_logpdf x mu s = -Num.inf := by simp [esl_lognormal_logpdf, h]
+
 /-! sampling = inverse cdf of the positive uniform deviate the generator yields (definitional after translation) -/
 theorem exp_sample (u mu l : α) : esl_exp_Sample u mu l = esl_exp_invsurv u mu l := rfl
 theorem gumbel_sample (u mu l : α) : esl_gumbel_Sample u mu l = esl_gumbel_invcdf u mu l := rfl
